@@ -10,8 +10,10 @@
 (***************************************************************************)
 EXTENDS Locks, Json, IOUtils
 Rec == ndJsonDeserialize(IOEnv.TRACE)
-VARIABLES l, created, lost, open
-tvars == <<vars, l, created, lost, open>>
+VARIABLES l, created, lost, open,
+          regreq,    \* accepted newAccount requests per <<key, endpoint>> (whether they created the account or found it)
+          unknown    \* answers "accountDoesNotExist" the CA gave to requests of that account
+tvars == <<vars, l, created, lost, open, regreq, unknown>>
 Ev == Rec[l]
 Is(e) == l <= Len(Rec) /\ Rec[l].e = e
 Adv == l' = l + 1 /\ UNCHANGED <<pc, caKnows, urlKnown, regs, forgets, blocks>>
@@ -20,44 +22,54 @@ Get(f, k) == IF k \in DOMAIN f THEN f[k] ELSE 0
 
 Clear == /\ readers' = [o \in Objects |-> [t \in Tasks |-> 0]] /\ writer' = [o \in Objects |-> "none"]
          /\ pending' = [o \in Objects |-> "none"]
-TInit == Init /\ l = 1 /\ created = <<>> /\ lost = <<>> /\ open = {}
-TReset == /\ Is("Reset") /\ Adv /\ Clear /\ created' = <<>> /\ lost' = <<>> /\ open' = {} /\ bad' = {}
+TInit == Init /\ l = 1 /\ created = <<>> /\ lost = <<>> /\ open = {} /\ regreq = <<>> /\ unknown = <<>>
+TReset == /\ Is("Reset") /\ Adv /\ Clear /\ created' = <<>> /\ lost' = <<>> /\ open' = {} /\ regreq' = <<>> /\ unknown' = <<>> /\ bad' = {}
 (* a new daemon process: no guard survives *)
-TStart == /\ Is("DaemonStart") /\ Adv /\ Clear /\ open' = {} /\ bad' = {} /\ UNCHANGED <<created, lost>>
+TStart == /\ Is("DaemonStart") /\ Adv /\ Clear /\ open' = {} /\ bad' = {} /\ UNCHANGED <<created, lost, regreq, unknown>>
 
 TReq == /\ Is("LockReq") /\ Adv
         /\ bad' = Chk("C12_LockOrder", DisciplineOK(Ev.task, O(Ev.lock), Ev.mode))
-        /\ UNCHANGED <<readers, writer, pending, created, lost, open>>
+        /\ UNCHANGED <<readers, writer, pending, created, lost, open, regreq, unknown>>
 TAcq == /\ Is("LockAcq") /\ Adv
         /\ IF Ev.mode = "r"
            THEN readers' = [readers EXCEPT ![O(Ev.lock)][Ev.task] = @ + 1] /\ UNCHANGED writer
            ELSE writer' = [writer EXCEPT ![O(Ev.lock)] = Ev.task] /\ UNCHANGED readers
-        /\ bad' = {} /\ UNCHANGED <<pending, created, lost, open>>
+        /\ bad' = {} /\ UNCHANGED <<pending, created, lost, open, regreq, unknown>>
 TRel == /\ Is("LockRel") /\ Adv
         /\ IF Ev.mode = "r"
            THEN readers' = [readers EXCEPT ![O(Ev.lock)][Ev.task] = IF @ > 0 THEN @ - 1 ELSE 0] /\ UNCHANGED writer
            ELSE writer' = [writer EXCEPT ![O(Ev.lock)] = "none"] /\ UNCHANGED readers
-        /\ bad' = {} /\ UNCHANGED <<pending, created, lost, open>>
+        /\ bad' = {} /\ UNCHANGED <<pending, created, lost, open, regreq, unknown>>
 THttp == /\ Is("Http") /\ Adv
          /\ bad' = Chk("C12_UnderEndpointLock", HoldsWrite(Ev.task, <<"endpoint", Ev.ep>>))
-         /\ UNCHANGED <<readers, writer, pending, created, lost, open>>
+         /\ UNCHANGED <<readers, writer, pending, created, lost, open, regreq, unknown>>
 TCreated == /\ Is("Created") /\ Adv
             /\ LET k == <<Ev.key, Ev.ep>> IN
                /\ created' = (k :> (Get(created, k) + 1)) @@ created
                /\ bad' = Chk("C12_RegisterOnce", Get(created, k) + 1 <= 1 + Get(lost, k))
-            /\ UNCHANGED <<readers, writer, pending, lost, open>>
+            /\ UNCHANGED <<readers, writer, pending, lost, open, regreq, unknown>>
 TLost == /\ Is("Lost") /\ Adv
          /\ LET k == <<Ev.key, Ev.ep>> IN lost' = (k :> (Get(lost, k) + 1)) @@ lost
-         /\ bad' = {} /\ UNCHANGED <<readers, writer, pending, created, open>>
+         /\ bad' = {} /\ UNCHANGED <<readers, writer, pending, created, open, regreq, unknown>>
+(* a newAccount request the CA accepted: the first one for this key on this endpoint, or one the CA asked for *)
+(* by answering accountDoesNotExist to a request of that account                                              *)
+TRegReq == /\ Is("RegReq") /\ Adv
+           /\ LET k == <<Ev.key, Ev.ep>> IN
+              /\ regreq' = (k :> (Get(regreq, k) + 1)) @@ regreq
+              /\ bad' = Chk("C12_RegisterOnce", Get(regreq, k) + 1 <= 1 + Get(unknown, k))
+           /\ UNCHANGED <<readers, writer, pending, created, lost, open, unknown>>
+TUnknown == /\ Is("Unknown") /\ Adv
+            /\ LET k == <<Ev.key, Ev.ep>> IN unknown' = (k :> (Get(unknown, k) + 1)) @@ unknown
+            /\ bad' = {} /\ UNCHANGED <<readers, writer, pending, created, lost, open, regreq>>
 TAttemptStart == /\ Is("AttemptStart") /\ Adv /\ open' = open \cup {Ev.task} /\ bad' = {}
-                 /\ UNCHANGED <<readers, writer, pending, created, lost>>
+                 /\ UNCHANGED <<readers, writer, pending, created, lost, regreq, unknown>>
 TAttemptEnd == /\ Is("AttemptEnd") /\ Adv /\ open' = open \ {Ev.task} /\ bad' = {}
-               /\ UNCHANGED <<readers, writer, pending, created, lost>>
+               /\ UNCHANGED <<readers, writer, pending, created, lost, regreq, unknown>>
 (* the daemon ended: by its attempt budget (every attempt over), not killed as hung *)
 TDaemonEnd == /\ Is("DaemonEnd") /\ Adv
               /\ bad' = Chk("C12_Terminates", Ev.clean /\ open = {})
-              /\ UNCHANGED <<readers, writer, pending, created, lost, open>>
-TNext == TReset \/ TStart \/ TReq \/ TAcq \/ TRel \/ THttp \/ TCreated \/ TLost \/ TAttemptStart \/ TAttemptEnd \/ TDaemonEnd
+              /\ UNCHANGED <<readers, writer, pending, created, lost, open, regreq, unknown>>
+TNext == TReset \/ TStart \/ TReq \/ TAcq \/ TRel \/ THttp \/ TCreated \/ TLost \/ TRegReq \/ TUnknown \/ TAttemptStart \/ TAttemptEnd \/ TDaemonEnd
 Report == (bad' \cap Enforce # {}) => PrintT(<<"BAD", bad' \cap Enforce, l>>)
 TSpec == TInit /\ [][TNext /\ Report]_tvars
 Accepted == LET d == TLCGet("stats").diameter IN
